@@ -19,10 +19,12 @@ VARIANT = "omp"
 TECHNIQUE = "exhaustive enumeration of all 4^4 vertex-value assignments x 4 vertex roles x frequency grid on the real tetrahedron kernels (C and Python) against the geometric definition; product walk over (crystal, mesh, symmetry, method, projection) for sum rules"
 RULE = ("weights: case = (vertex value assignment); non-trivial = assignment has at least one tie or is not sorted; "
         "mesh: case = (crystal, mesh, method, projection option)")
-ASSUMPTIONS = ["vtk/ref/tetra.py (Lehmann-Taut volume fraction, self-checked); ties are compared with an infinitesimally perturbed oracle away from the vertex values"]
+ASSUMPTIONS = ["vtk/ref/tetra.py (Lehmann-Taut volume fraction, self-checked); B-spline (Curry-Schoenberg) form of the volume fraction, exact with tied vertex values, cross-checked against the closed Lehmann-Taut form"]
 BUDGET = {"quick": 900, "thorough": 3400}
 
 OMEGAS = np.array([-0.5, 0.0, 0.25, 0.5, 1.0, 1.3, 1.5, 2.0, 2.4, 2.5, 3.0, 3.2, 3.5])
+OMEGAS_DEEP = np.array(sorted(set(OMEGAS.tolist() + [0.01, 0.05, 0.75, 0.99, 1.01, 1.7, 2.95, 3.05, 3.7, 4.0, 4.3, 2.001, 2.0 + 1e-6])))
+UNEVEN = [0.0, 0.003, 2.0, 2.001]
 BIG = 1e6
 GEO_LATTICES = ["sc-1", "hcp-2", "rhomb-prim-2", "bct-conv-2", "mono-C-conv-4", "tri-P1-3", "NaCl-prim-2", "tri-P-1bar-2", "rhomb-prim-1"]
 
@@ -33,13 +35,21 @@ def selfcheck():
 
 def plan(tier, seed):
     groups = []
-    assigns = list(itertools.product(range(4), repeat=4))
+    deep = tier != "quick"
+    # thorough: five integer levels plus an unevenly spaced alphabet (narrow gaps next to wide ones), every one of the 24
+    # tetrahedra of the table as carrier, a denser frequency grid
+    assigns = list(itertools.product(range(5 if deep else 4), repeat=4))
+    if deep:
+        assigns += [tuple(UNEVEN[i] for i in a) for a in itertools.product(range(4), repeat=4)]
     for k in range(0, len(assigns), 16):
-        groups.append([{"kind": "weights", "values": list(a)} for a in assigns[k:k + 16]])
-    groups.append([{"kind": "geometry", "xtal": n, "mesh": m} for n in GEO_LATTICES for m in ([1, 1, 1], [3, 2, 2], [2, 5, 3], [1, 4, 9])])
-    groups.append([{"kind": "field", "xtal": n, "fieldseed": k} for n in GEO_LATTICES for k in range(4)])
+        groups.append([{"kind": "weights", "values": list(a), "deep": deep} for a in assigns[k:k + 16]])
+    gm = [[1, 1, 1], [3, 2, 2], [2, 5, 3], [1, 4, 9]] + ([[2, 2, 2], [9, 1, 1], [1, 9, 1], [4, 4, 3], [7, 5, 2], [16, 1, 3]] if tier != "quick" else [])
+    groups.append([{"kind": "geometry", "xtal": n, "mesh": m} for n in GEO_LATTICES for m in gm])
+    groups.append([{"kind": "field", "xtal": n, "fieldseed": k} for n in GEO_LATTICES for k in range(16 if tier != "quick" else 4)])
     xt = ["NaCl-prim-2", "hcp-2", "tri-P1-3", "rhomb-prim-2", "mono-P21-2", "bct-conv-2"]
-    meshes = [[3, 3, 3], [4, 3, 2], [2, 2, 5]] if tier == "quick" else [[3, 3, 3], [4, 3, 2], [2, 2, 5], [5, 5, 5], [4, 4, 4]]
+    meshes = [[3, 3, 3], [4, 3, 2], [2, 2, 5]] if tier == "quick" else [[3, 3, 3], [4, 3, 2], [2, 2, 5], [5, 5, 5], [4, 4, 4], [1, 1, 7], [6, 2, 3], [7, 7, 7]]
+    if deep:
+        xt += ["wurtzite-4", "CsCl-2", "ortho-P-2", "diamond-prim-2", "trig-P3-4", "mono-Pc-2"]
     for n in xt:
         g = []
         for mesh in meshes:
@@ -48,7 +58,7 @@ def plan(tier, seed):
         groups.append(g)
     meta = {"alphabet": {"vertex_assignments": len(assigns), "roles": 4, "omegas": len(OMEGAS), "functions": 2, "geometry_lattices": len(GEO_LATTICES),
                          "mesh_crystals": xt, "meshes": meshes, "methods": 4},
-            "bound": "complete product", "exhaustive": True, "not_covered": ["meshes above 5x5x5"]}
+            "bound": "complete product", "exhaustive": True, "not_covered": ["meshes above 7x7x7"]}
     return groups, meta
 
 
@@ -83,9 +93,10 @@ def isolated(lang, row, central, others, omegas, func):
 
 def run_weights(case, seed):
     vals = np.array(case["values"], float)
+    deep = case.get("deep", False)
+    OMEGAS = OMEGAS_DEEP if deep else globals()["OMEGAS"]
     tms = _methods()
     nontriv = bool(len(set(case["values"])) < 4 or list(case["values"]) != sorted(case["values"]))
-    pert = vals + np.arange(4) * 1e-7
     n_eval = 0
     worst = 0.0
     at_vertex_drop = False
@@ -97,7 +108,7 @@ def run_weights(case, seed):
             res = {}
             for lang in ("C", "Py"):
                 tm, rga, ci = tms[lang]
-                rows = sorted({0, 7, 23, [k for k in range(24) if ci[k] == max(ci)][0]})
+                rows = list(range(24)) if deep else sorted({0, 7, 23, [k for k in range(24) if ci[k] == max(ci)][0]})
                 rr = [isolated(lang, r, central, others, OMEGAS, func) for r in rows]
                 rr.append(isolated(lang, rows[0], central, others[::-1], OMEGAS, func))  # order of the other vertices is irrelevant
                 n_eval += len(rr)
@@ -134,14 +145,14 @@ def run_weights(case, seed):
                 at_vertex = np.abs(w - vals).min() < 1e-9
                 if at_vertex and func == "I":
                     continue  # g(w) has kinks / jumps exactly at the vertex values
-                want = (TT.n_of(w, pert) if func == "J" else TT.g_of(w, pert)) / 6.0
+                want = (TT.n_exact(w, vals) if func == "J" else TT.g_exact(w, vals)) / 6.0
                 if abs(tot[lang][k] - want) <= 2e-5 * max(1.0, abs(want)):
                     continue
                 if func == "J" and at_vertex:
                     # at a frequency equal to tied vertex values the cumulative weight jumps: any value between the
                     # one-sided limits is a valid convention
-                    lo = TT.n_of(w - 1e-5, pert) / 6.0
-                    hi = TT.n_of(w + 1e-5, pert) / 6.0
+                    lo = TT.n_exact(w - 1e-5, vals) / 6.0
+                    hi = TT.n_exact(w + 1e-5, vals) / 6.0
                     if lo - 1e-4 <= tot[lang][k] <= hi + 1e-4:
                         continue
                     if tot[lang][k] < lo:
@@ -231,7 +242,7 @@ def run_field(case, seed):
             I[gi] = tm.get_integration_weight()
             if case["fieldseed"] != 2:
                 for k, w in enumerate(om):
-                    nsum[k] += sum(TT.n_of(w, row + np.arange(4) * 1e-9) for row in t) / 24.0
+                    nsum[k] += sum((TT.n_exact(w, row) if len(set(row.tolist())) > 1 else float(w > row[0])) for row in t) / 24.0
         tot[lang] = (J, I, nsum)
         if (J < -1e-12).any() or (J > 1 + 1e-12).any():
             return dict(ok=False, sig="C11/field/J-out-of-range/" + lang, msg="%s: cumulative weight outside [0,1]" % case["xtal"])
